@@ -102,9 +102,13 @@ def run_connection(spec, fates, default=None, overs=(), lifetime=True, label="",
                 ev.append(["raise", "DidNotTerminate", -1, -1, net.tick(net.now)])
                 break
             except Exception as ex:
+                # which command the error names: read off the packet it carries, if that is a packet at all (an
+                # error carrying something else names no command: -1, judged by the specification)
                 pkt = getattr(ex, "packet", None)
-                c = pkt.arg1 if pkt is not None and pkt.arg1 is not None else -1
-                bb = pkt.arg2 if pkt is not None and pkt.arg2 is not None else -1
+                c = getattr(pkt, "arg1", None)
+                bb = getattr(pkt, "arg2", None)
+                c = c if isinstance(c, int) and 0 <= c < 2 ** 31 else -1
+                bb = bb if isinstance(bb, int) and 0 <= bb < 2 ** 31 else -1
                 ev.append(["raise", type(ex).__name__, c, bb, net.tick(net.now)])
             else:
                 ev.append(["return", net.tick(net.now)])
